@@ -2,8 +2,9 @@
    Model/ReadBuf.v is readbuffer.go with the real array / cur / last / memmove layout, io.ReadAtLeast as the loop it is and
    every slice expression bounds-checked; readers are arbitrary chunk schedules ending in EOF together with or after the last
    bytes.  Proved at the level every decoder read goes through (ReadN): the bytes delivered and the point of failure are a
-   function of the stream alone, for every schedule, EOF style and buffer size.  Lifting to whole decodes (the decoder only
-   sees its input through ReadN) is decided per run by the chunked-vs-contiguous Go oracle; the error KIND on a truncated
+   function of the stream alone, for every schedule, EOF style and buffer size.  Lifted to whole decodes for the fragmentations
+   the decoder model knows (buffer size, amount already buffered): C08_decode_buffer_independent below; arbitrary chunk plans
+   under Decode are decided per run by the chunked-vs-contiguous Go oracle; the error KIND on a truncated
    stream is not a function of the stream (known finding eof_kind_depends_on_chunking, refuted below). *)
 From Coq Require Import NArith List Bool Arith.
 Import ListNotations.
@@ -39,3 +40,29 @@ Theorem C08_error_kind_refuted : exists data n p1 p2,
    fst (fst (read_n b1 r1 (n - 3)))) = Err EOF.
 Proof. exists [1; 2; 3]%N, 5, [1], [3]. split; vm_compute; reflexivity. Qed.
 Print Assumptions C08_error_kind_refuted.
+
+(* lifted to the decoder (Model/Decoder.v: one refill delivers min(buffer size, what the reader still holds), so the buffer size
+   decides how the stream reaches the decoder): what Decode returns depends neither on the buffer size option nor on how much
+   of the stream already sits in the buffer -- same headers, messages and CRCs, or errors of one class (io.EOF and
+   io.ErrUnexpectedEOF being one class: C08_error_kind_refuted).  Relational proof through every function of the decoder model
+   with two option sets that differ in the buffer size only.  With C08_read_n (any chunking reader answers every ReadN with the
+   next n bytes) this covers the fragmentations a reader can produce; arbitrary chunk plans directly under Decode are decided
+   per run by the Go oracle. *)
+From Fit Require Import Model.Api Proofs.IntegrityModel Proofs.ApiIndependence Proofs.ChunkIndependence.
+Theorem C08_decode_buffer_independent : forall a b, a_err a = None -> a_err b = None -> a_once a = false -> a_once b = false ->
+  c_checksum (a_cfg b) = c_checksum (a_cfg a) -> c_expand (a_cfg b) = c_expand (a_cfg a) ->
+  765 <= c_bufsize (a_cfg a) -> 765 <= c_bufsize (a_cfg b) -> dsim (a_s a) (a_s b) ->
+  match snd (api_step a ADecode), snd (api_step b ADecode) with
+  | RFit f, RFit g => f = g /\ dsim (a_s (fst (api_step a ADecode))) (a_s (fst (api_step b ADecode)))
+  | r1, r2 => res_class r1 = res_class r2 /\ (forall f, r1 <> RFit f) /\ (forall f, r2 <> RFit f)
+  end.
+Proof. exact decode_is_buffer_independent. Qed.
+Print Assumptions C08_decode_buffer_independent.
+
+Theorem C08_fresh_decoders_agree : forall ck ex k1 k2 bs, 765 <= k1 -> 765 <= k2 -> bytes_ok bs ->
+  match snd (api_step (api_new (mkcfg ck ex k1) bs) ADecode), snd (api_step (api_new (mkcfg ck ex k2) bs) ADecode) with
+  | RFit f, RFit g => f = g
+  | r1, r2 => res_class r1 = res_class r2 /\ (forall f, r1 <> RFit f) /\ (forall f, r2 <> RFit f)
+  end.
+Proof. exact fresh_decoders_agree. Qed.
+Print Assumptions C08_fresh_decoders_agree.
